@@ -21,6 +21,11 @@ Mutation self-test (2026-09-22): `micros.max(last + 1)` -> `micros.max(last)` in
 => VIOLATION (trace rejected at the `end` of the first call whose forced reading is not ahead of
 LAST: run with readings t2:[3,..] t1:[10,3] returned 10 twice); undone => exit 0.
 
+The coordinator's two seeded race mutants (seeded/_incoming/C33: fetch_max two-step; `next` computed
+once outside the retry loop — rebased onto the hook lines in seeded/dns/C33_incoming_*_rebased_on_hook.diff,
+because patch.diff inserts at the same place as the hook) are both reported: VIOLATION
+no_linearization (two calls of one round return the same value), first rejected run after ~70 runs.
+
 Binding self-test (every run): an accepted trace in which one call is made to return the value of
 an earlier call must be rejected by TLC.
 """
